@@ -675,7 +675,10 @@ def core_recipe(draw, max_budget=40, opts=None):
     final = g.U(cx.sub()) if g.chance(7) else ["return", g.U(cx.operand())]
     main_items = stmts + [final]
     guard = f6_guard_loads(main_items, [n for n, d in g.vars.items() if d.get("kind") != "dyn"])
-    recipe = {"mode": mode, "level": level, "vars": g.vars, "routines": [], "main": ["seq", init_stores(g.vars) + guard + main_items]}
+    init = init_stores(g.vars)
+    if g.opts.get("no_init"):
+        init, guard = [], []
+    recipe = {"mode": mode, "level": level, "vars": g.vars, "routines": [], "main": ["seq", init + guard + main_items]}
     if guard:
         recipe["f6_guards"] = len(guard)
     if g.anytype:
